@@ -5,6 +5,7 @@ import F3.Proofs.MultiParticipantEx
 import F3.Proofs.NoFailureRun
 import F3.Proofs.NoFailureParticipant
 import F3.Proofs.EmittedValidEx
+import F3.Proofs.EmittedValidParticipantEx
 /-!
 # C07 — protocol discipline of an honest participant (Layer B, on the executable model of `gpbft.go`)
 
@@ -1121,5 +1122,370 @@ example : (∀ op ∈ r2Ops.take 16, op.isStart = false) ∧
   ⟨fun op hop => r2_noRestart op (List.mem_of_mem_take hop), fun op hop => r2_valid op (List.mem_of_mem_take hop)⟩
 
 end RunLevel
+
+/-! ## Run level, at the participant API and across consecutive instances
+
+The theorems of §RunLevel are about `run (init …) (Start :: ops)`: one `Start`, then `Receive` / `ReceiveAlarm` calls on
+the *instance*. The implementation is driven through `gpbft.Participant` (`participant.go`): a message of the current
+instance that arrives before the instance has begun is queued (`messageQueue.Add`: at most one message per sender, round
+and phase; spammable messages beyond the look-ahead are not queued — `instance_queue_rule`), and the alarm that begins the
+instance hands the queue to `instance.ReceiveMany`, sorted by (round, phase), senders in Go map order. `ReceiveMany` is not
+a sequence of `Receive` calls: late-binding rejects are dropped silently and the round skip is tried once, after all
+messages (highest round first). Models: `pstepWith order` / `prun order` (one instance, any drain order `order`),
+`mpstep` / `mprun` (consecutive instances, each begun with the power table, proposal and drain order the host supplies).
+
+Proofs in `F3.Proofs.EmittedValid{Participant,Multi,ParticipantEx}` (core-only). Hypotheses as in
+`no_internal_error_or_panic_participant`: every delivered message is of this instance and validated w.r.t. the set `W` of
+existing votes unless its supplemental data differ (`PMsgOK W t`); for `mprun`, per instance `k`: the messages *addressed
+to `k`* are `PMsgOK W_k tbl_k` (`MPOpK k`) — every instance has its own power table, proposal and evidence set, and
+nothing is assumed about messages of other instances. No failure hypothesis, any interleaving of early deliveries, the
+beginning alarm, later deliveries and alarms, any drain order.
+
+**What the model's justification does and does not carry.** `Just` is `(round, phase, value, signers)`; a Go
+`Justification` also carries `Vote.Instance`, `Vote.SupplementalData` and the aggregate signature. Covered: the
+phase-specific demands of `validator.go` on round, phase, value and signers of an attached justification (`Shape`,
+`JustOk`: strictly increasing signer indices with positive power, strong quorum, every signer cast that vote in `W`);
+the instance is covered *through the evidence set*: `emitted_valid_multi` is per instance, w.r.t. the votes `W_k` in
+existence in instance `k`, so a justification emitted in instance `k` is backed by votes of instance `k`. Not covered —
+the model has no field for it, and it is deliberately not changed here: `validateJustification`'s two equality checks
+`msg.Vote.Instance == Justification.Vote.Instance` and `msg.Vote.SupplementalData.Eq(Justification.Vote.SupplementalData)`
+for the *emitted* message (in Go: `buildJustification` fills both from `i.current.ID` / `i.supplementalData`, and a
+forwarded justification came with a validated message of this instance, whose own two fields were compared with the
+instance's by `Receive` — the model's `instOk` / `suppOk` flags are about the message, not about its justification);
+and everything about signatures beyond the symbolic reading "`W p r ph v` = a validly signed vote exists" (aggregate
+verification, the payload actually signed, which includes instance and supplemental data). -/
+section RunLevelParticipant
+open F3.EmittedValid
+
+/-- **Every message the participant emits is valid — participant API.** For every configuration, power table with
+positive total, non-empty input, drain order and every sequence of `ReceiveMessage` / `ReceiveAlarm` calls over messages
+of this instance, validated w.r.t. `W` unless their supplemental data differ: if `W` contains the participant's own
+broadcasts and the participant has positive power, every broadcast request of the run — those made while the pre-start
+queue is drained included — is accepted by the validator model w.r.t. the same `W`. -/
+theorem emitted_valid_participant (cfg : Cfg) (t : Table) (input : Chain) (W : Votes) (p : Pid) (order : List Pid)
+    (ops : List POp) (hin : input ≠ []) (hT : 0 < t.total) (hpos : 0 < t.power p)
+    (hvalid : ∀ op ∈ ops, POpP (PMsgOK W t) op)
+    (hown : ∀ r ph v tk j, Eff.broadcast r ph v tk j ∈ (prun order (pinit cfg t input) ops).2 → W p r ph v) :
+    ∀ r ph v tk j, Eff.broadcast r ph v tk j ∈ (prun order (pinit cfg t input) ops).2 →
+      MsgValid W t (msgOf p r ph v j) :=
+  emitted_valid_prun cfg t input W p order ops hin hT hpos hvalid hown
+
+/-- the phase-specific part, without the power hypothesis -/
+theorem emitted_shapes_participant (cfg : Cfg) (t : Table) (input : Chain) (W : Votes) (p : Pid) (order : List Pid)
+    (ops : List POp) (hin : input ≠ []) (hT : 0 < t.total) (hvalid : ∀ op ∈ ops, POpP (PMsgOK W t) op)
+    (hown : ∀ r ph v tk j, Eff.broadcast r ph v tk j ∈ (prun order (pinit cfg t input) ops).2 → W p r ph v) :
+    ∀ r ph v tk j, Eff.broadcast r ph v tk j ∈ (prun order (pinit cfg t input) ops).2 → Shape W t r ph v j :=
+  prun_shaped cfg t input W p order ops hin hT hvalid hown
+
+/-- **… and in every instance of a multi-instance run.** In a run of the multi-instance participant from its initial
+state in which `StartInstanceAt` only skips ahead (`forwardOnly`), let instance `k` have been begun with power table
+`tbl`, proposal `input` (and drain order `order`), let the messages addressed to instance `k` be validated w.r.t. the set
+`W` of votes existing *in instance `k`*, and let `W` contain the participant's own broadcasts of instance `k`: every
+broadcast request tagged `k` is accepted by the validator model w.r.t. `tbl` and `W`. -/
+theorem emitted_valid_multi (cfg : Cfg) (c0 : Nat) (ops : List MPOp) (k : Nat) (tbl : Table) (input : Chain)
+    (order : List Pid) (W : Votes) (p : Pid) (hfw : forwardOnly (minit cfg c0) ops = true)
+    (hbeg : begunWith cfg c0 k ops = some (tbl, input, order)) (hin : input ≠ []) (hT : 0 < tbl.total)
+    (hpos : 0 < tbl.power p) (hvalid : ∀ op ∈ ops, MPOpK k (PMsgOK W tbl) op)
+    (hown : ∀ r ph v tk j, (k, Eff.broadcast r ph v tk j) ∈ (mprun (minit cfg c0) ops).2 → W p r ph v) :
+    ∀ r ph v tk j, (k, Eff.broadcast r ph v tk j) ∈ (mprun (minit cfg c0) ops).2 →
+      MsgValid W tbl (msgOf p r ph v j) :=
+  emitted_valid_mprun cfg c0 ops k tbl input order W p hfw hbeg hin hT hpos hvalid hown
+
+/-- Non-vacuity (`F3.Proofs.EmittedValidParticipantEx`): `p2Ops` is the two-round run of §RunLevel driven through the
+participant API — six early messages, two of them refused by the queue, the instance begun by the alarm at 0 and the
+queue drained in the order 3, 1, 2, 4; it meets every hypothesis, and its seven broadcasts are accepted. -/
+example :
+    MsgValid p2W r2Tbl (msgOf 1 0 .quality [7, 8] none) ∧ MsgValid p2W r2Tbl (msgOf 1 0 .prepare [7, 8] none) ∧
+    MsgValid p2W r2Tbl (msgOf 1 0 .commit [] none) ∧ MsgValid p2W r2Tbl (msgOf 1 1 .converge [7, 8] (some jB)) ∧
+    MsgValid p2W r2Tbl (msgOf 1 1 .prepare [7] (some jB)) ∧ MsgValid p2W r2Tbl (msgOf 1 1 .commit [7] (some jP)) ∧
+    MsgValid p2W r2Tbl (msgOf 1 0 .decide [7] (some jC)) := by
+  have h := emitted_valid_participant r2Cfg r2Tbl [7, 8] p2W 1 p2Order p2Ops (by decide) (by decide) (by decide)
+    p2_valid p2_own
+  have key : ∀ x ∈ bcList p2Run.2, MsgValid p2W r2Tbl (msgOf 1 x.1 x.2.1 x.2.2.1 x.2.2.2) := by
+    intro x hx
+    simp only [bcList, List.mem_filterMap] at hx
+    obtain ⟨e, he, hex⟩ := hx
+    cases e <;> simp at hex
+    subst hex
+    exact h _ _ _ _ _ he
+  rw [p2_broadcasts] at key
+  exact ⟨key (0, .quality, [7, 8], none) (by simp), key (0, .prepare, [7, 8], none) (by simp),
+    key (0, .commit, [], none) (by simp), key (1, .converge, [7, 8], some jB) (by simp),
+    key (1, .prepare, [7], some jB) (by simp), key (1, .commit, [7], some jP) (by simp),
+    key (0, .decide, [7], some jC) (by simp)⟩
+
+/-- Non-vacuity of `emitted_valid_multi`: both instances of the two-instance run `exMOps` (member 1; instance 1's first
+two QUALITY votes were queued while instance 0 was running resp. before instance 1 began) meet the hypotheses, each with
+its own evidence set; e.g. the COMMIT of instance 0 and the DECIDE of instance 1 are accepted, each w.r.t. the votes of
+its own instance. -/
+example : MsgValid (WofL mx0Votes) mxTbl (msgOf 1 0 .commit [7, 8] (some mxJp)) ∧
+    MsgValid (WofL mx1Votes) mxTbl (msgOf 1 0 .decide [8, 5] (some mxJc1)) := by
+  have h0 := emitted_valid_multi mxCfg 0 exMOps 0 mxTbl [7, 8] mxOrder (WofL mx0Votes) 1 ex_forward.2.2
+    ex_opsOf.2.2.1 (by decide) (by decide) (by decide) mx_valid0 mx_own0
+  have h1 := emitted_valid_multi mxCfg 0 exMOps 1 mxTbl [8, 5] [1, 4, 2] (WofL mx1Votes) 1 ex_forward.2.2
+    ex_opsOf.2.2.2.1 (by decide) (by decide) (by decide) mx_valid1 mx_own1
+  have m0 : Eff.broadcast 0 .commit [7, 8] false (some mxJp) ∈ effsOf 0 (mprun (minit mxCfg) exMOps).2 := by
+    decide +kernel
+  have m1 : Eff.broadcast 0 .decide [8, 5] false (some mxJc1) ∈ effsOf 1 (mprun (minit mxCfg) exMOps).2 := by
+    decide +kernel
+  exact ⟨h0 _ _ _ _ _ ((mem_effsOf 0 _ _).1 m0), h1 _ _ _ _ _ ((mem_effsOf 1 _ _).1 m1)⟩
+
+/-! ### rebroadcast requests
+
+`Eff.rebroadcast r ph` is `host.RequestRebroadcast(Instant{id, r, ph})` (`tryRebroadcast`): a *request* that the host
+re-publish the participant's own message of that instance, round and phase, if it has one (`host.go`:
+`selfMessages[instance][round][phase]`; `F3.Equiv.step (.rebroadcast i r p)`; the network model `F3.Instance.sent`
+ignores the requests since they add nothing to the pool). `wireOf p es` expands the requests of `es` against the
+broadcasts requested earlier in `es`. -/
+
+/-- **Whatever a rebroadcast request re-sends was broadcast before** — so everything the participant puts on the wire,
+re-sent messages included, is `msgOf` of a broadcast effect of the run; and (with `emit_once`) a request re-sends at
+most one message. -/
+theorem rebroadcast_resends_own_broadcasts (p : Pid) (a b : List Eff) (r : Nat) (ph : Phase) :
+    (∀ m ∈ resent p a r ph, ∃ v tk j, Eff.broadcast r ph v tk j ∈ a ∧ m = msgOf p r ph v j ∧
+      m ∈ wireOf p (a ++ Eff.rebroadcast r ph :: b)) ∧
+    (∀ m ∈ wireOf p (a ++ Eff.rebroadcast r ph :: b), ∃ r' ph' v tk j,
+      Eff.broadcast r' ph' v tk j ∈ a ++ Eff.rebroadcast r ph :: b ∧ m = msgOf p r' ph' v j) ∧
+    ((a.filterMap slotOf).Nodup → (resent p a r ph).length ≤ 1) :=
+  ⟨fun _ hm => rebroadcast_resends_earlier hm, fun _ hm => mem_wireOf hm,
+   fun hnd => resent_length_le_one slotOf (fun r ph => (r, ph)) (fun _ _ _ _ _ => rfl) p a hnd r ph⟩
+
+/-- **Everything on the wire is valid, re-sent messages included** — participant API. -/
+theorem wire_valid_participant (cfg : Cfg) (t : Table) (input : Chain) (W : Votes) (p : Pid) (order : List Pid)
+    (ops : List POp) (hin : input ≠ []) (hT : 0 < t.total) (hpos : 0 < t.power p)
+    (hvalid : ∀ op ∈ ops, POpP (PMsgOK W t) op)
+    (hown : ∀ r ph v tk j, Eff.broadcast r ph v tk j ∈ (prun order (pinit cfg t input) ops).2 → W p r ph v) :
+    ∀ m ∈ wireOf p (prun order (pinit cfg t input) ops).2, MsgValid W t m := by
+  intro m hm
+  obtain ⟨r, ph, v, tk, j, he, rfl⟩ := mem_wireOf hm
+  exact emitted_valid_participant cfg t input W p order ops hin hT hpos hvalid hown r ph v tk j he
+
+/-- … and per instance of a multi-instance run (requests of instance `k` expanded against the broadcasts of `k`). -/
+theorem wire_valid_multi (cfg : Cfg) (c0 : Nat) (ops : List MPOp) (k : Nat) (tbl : Table) (input : Chain)
+    (order : List Pid) (W : Votes) (p : Pid) (hfw : forwardOnly (minit cfg c0) ops = true)
+    (hbeg : begunWith cfg c0 k ops = some (tbl, input, order)) (hin : input ≠ []) (hT : 0 < tbl.total)
+    (hpos : 0 < tbl.power p) (hvalid : ∀ op ∈ ops, MPOpK k (PMsgOK W tbl) op)
+    (hown : ∀ r ph v tk j, (k, Eff.broadcast r ph v tk j) ∈ (mprun (minit cfg c0) ops).2 → W p r ph v) :
+    ∀ m ∈ wireOf p (effsOf k (mprun (minit cfg c0) ops).2), MsgValid W tbl m :=
+  wire_valid_mprun cfg c0 ops k tbl input order W p hfw hbeg hin hT hpos hvalid hown
+
+/-- Non-vacuity: `rbOps` (three QUALITY votes queued, begun at 0, alarms at 200 and 300) requests the rebroadcast of
+QUALITY, COMMIT, PREPARE and CONVERGE of round 0; QUALITY and PREPARE are re-sent, nothing else; all four messages on
+the wire are accepted. -/
+example :
+    wireOf 1 (prun [] (pinit r2Cfg r2Tbl [7, 8]) rbOps).2 =
+      [msgOf 1 0 .quality [7, 8] none, msgOf 1 0 .prepare [7, 8] none,
+       msgOf 1 0 .quality [7, 8] none, msgOf 1 0 .prepare [7, 8] none] ∧
+    ∀ m ∈ wireOf 1 (prun [] (pinit r2Cfg r2Tbl [7, 8]) rbOps).2, MsgValid r2W r2Tbl m :=
+  ⟨rb_wire.2, wire_valid_participant r2Cfg r2Tbl [7, 8] r2W 1 [] rbOps (by decide) (by decide) (by decide)
+    rb_valid rb_own⟩
+
+/-! ### the round-0 PREPARE value
+
+`pvotesQ order p ops` are the QUALITY votes the participant run hands to the instance *while it is in QUALITY*, in the
+order in which the instance sees them (`quality_votes_counted` below). -/
+
+/-- **Round-0 PREPARE at the participant API.** In every validated participant run a PREPARE without justification is
+for round 0, the instance has begun and left QUALITY, and the value is the longest prefix of the input with a strong
+quorum (`longestPrefixWithQuorum`, tight by `longest_prefix_characterised`; `qTally` read by `qTally_hasStrongFor` /
+`quality_tally_meaning`: first vote of every sender) among the QUALITY votes counted in the run. -/
+theorem prepare0_participant (cfg : Cfg) (t : Table) (input : Chain) (W : Votes) (order : List Pid)
+    (ops : List POp) (hin : input ≠ []) (hT : 0 < t.total) (hvalid : ∀ op ∈ ops, POpP (PMsgOK W t) op)
+    (r : Nat) (v : Chain) (tk : Bool)
+    (hm : Eff.broadcast r .prepare v tk none ∈ (prun order (pinit cfg t input) ops).2) :
+    r = 0 ∧ (prun order (pinit cfg t input) ops).1.started = true ∧
+      (prun order (pinit cfg t input) ops).1.inst.phase ≠ .quality ∧
+      v = (qTally t (pvotesQ order (pinit cfg t input) ops)).longestPrefixWithQuorum input :=
+  prepare0_prun cfg t input W order ops hin hT hvalid r v tk hm
+
+/-- **Which QUALITY votes count.**
+1. Call by call (`pvotesQ` concatenates `ptalliedQ`): a delivery before the instance has begun counts nothing (it is
+   only queued: `prun_waiting`, the queue is `preQueue` = `messageQueue.Add` folded over the early deliveries, so a second
+   message of a sender for the same round and phase and a spammable message beyond the look-ahead never reach the
+   instance); the alarm that begins the instance counts `drainVotes` of `drainWith order queue` — the queued QUALITY
+   messages that pass the door checks of `receiveOne`, in drain order, as long as the instance is still in QUALITY when
+   their turn comes (a vote that ends QUALITY is counted, the ones after it are not); a later delivery counts iff it is a
+   QUALITY message passing the door checks while the instance is in QUALITY; later alarms count nothing.
+2. Every counted vote is the vote of a QUALITY message that was delivered (early or late).
+3. While the instance is in QUALITY its tally is `qTally` of exactly the counted votes, and no justification-free
+   PREPARE has been broadcast.
+4. Whatever follows a point at which the instance has begun and is no longer in QUALITY counts nothing. -/
+theorem quality_votes_counted (cfg : Cfg) (t : Table) (input : Chain) (W : Votes) (order : List Pid)
+    (hin : input ≠ []) (hT : 0 < t.total) :
+    (∀ (p : PState) (op : POp) (ops : List POp),
+      pvotesQ order p (op :: ops) = ptalliedQ order p op ++ pvotesQ order (pstepWith order p op).1 ops) ∧
+    (∀ (p : PState) (now : Int) (m : Msg), p.started = false → ptalliedQ order p (.recv now m) = []) ∧
+    (∀ (p : PState) (now : Int), p.started = false → hasFailure (p.inst.beginQuality now).2 = false →
+      ptalliedQ order p (.alarm now) = drainVotes now (p.inst.beginQuality now).1 (drainWith order p.queue)) ∧
+    (∀ (p : PState) (now : Int) (m : Msg), p.started = true →
+      ptalliedQ order p (.recv now m) =
+        if p.inst.phase = .quality ∧ p.inst.recvPre m = .accept ∧ m.phase = .quality then [(m.sender, m.value)] else []) ∧
+    (∀ (p : PState) (now : Int), p.started = true → ptalliedQ order p (.alarm now) = []) ∧
+    (∀ (now : Int) (st : State) (m : Msg) (ms : List Msg),
+      drainVotes now st (m :: ms) =
+        if isLateBinding (st.receiveOne now m).1.2 then drainVotes now st ms
+        else if hasFailure (st.receiveOne now m).1.2 then talliedQ st m
+        else talliedQ st m ++ drainVotes now (st.receiveOne now m).1.1 ms) ∧
+    (∀ (ops : List POp), ∀ v ∈ pvotesQ order (pinit cfg t input) ops,
+      ∃ now m, POp.recv now m ∈ ops ∧ m.phase = .quality ∧ v = (m.sender, m.value)) ∧
+    (∀ (ops : List POp), (∀ op ∈ ops, POpP (PMsgOK W t) op) →
+      (prun order (pinit cfg t input) ops).1.inst.phase = .quality →
+      (prun order (pinit cfg t input) ops).1.inst.quality = qTally t (pvotesQ order (pinit cfg t input) ops) ∧
+      ∀ r v tk, Eff.broadcast r .prepare v tk none ∉ (prun order (pinit cfg t input) ops).2) ∧
+    (∀ (ops1 ops2 : List POp), (∀ op ∈ ops1 ++ ops2, POpP (PMsgOK W t) op) →
+      (prun order (pinit cfg t input) ops1).1.started = true →
+      (prun order (pinit cfg t input) ops1).1.inst.phase ≠ .quality →
+      pvotesQ order (pinit cfg t input) (ops1 ++ ops2) = pvotesQ order (pinit cfg t input) ops1) := by
+  refine ⟨fun _ _ _ => rfl, fun p now m hs => by simp [ptalliedQ, hs], fun p now hs hf => by simp [ptalliedQ, hs, hf],
+    fun p now m hs => ?_, fun p now hs => by simp [ptalliedQ, hs, POp.toOp, tallied],
+    fun _ _ _ _ => rfl, fun ops v hv => ?_,
+    fun ops hv hq => quality_phase_prun cfg t input W order ops hin hT hv hq,
+    fun ops1 ops2 hv hs hnq => pvotesQ_after_quality cfg t input W order ops1 ops2 hin hT hv hs hnq⟩
+  · simp only [ptalliedQ, hs, if_true, POp.toOp, tallied_toList, talliedL]
+    by_cases hq : p.inst.phase = .quality <;> simp [hq]
+  · obtain ⟨m, hm, h1, h2⟩ := pvotesQ_sound order _ ops v hv
+    rcases hm with hm | ⟨now, hm⟩
+    · simp [pinit] at hm
+    · exact ⟨now, m, hm, h1, h2⟩
+
+/-- **Queued votes count from the drain on, in drain order; what the queue refused does not count.** For a participant
+run `pre ++ alarm :: rest` whose calls before the beginning alarm are the deliveries `pre`: the counted votes are
+`drainVotes` over the drain (`drainWith order`, any map order) of the queue `preQueue look pre` — `messageQueue.Add`
+(`instance_queue_rule`) folded over `pre` — followed by the votes counted afterwards; and every vote counted by the drain
+is the vote of a QUALITY message *in that queue*: a second message of a sender for the same round and phase and a
+spammable message beyond the look-ahead are not in it. -/
+theorem counted_votes_from_queue (cfg : Cfg) (t : Table) (input : Chain) (order : List Pid) (pre rest : List POp)
+    (now : Int) (hr : ∀ op ∈ pre, op.isRecv = true) :
+    pvotesQ order (pinit cfg t input) (pre ++ .alarm now :: rest) =
+      drainVotes now ((init cfg t input).beginQuality now).1 (drainWith order (preQueue cfg.maxLookahead pre)) ++
+        pvotesQ order (prun order (pinit cfg t input) (pre ++ [.alarm now])).1 rest ∧
+    (∀ v ∈ drainVotes now ((init cfg t input).beginQuality now).1 (drainWith order (preQueue cfg.maxLookahead pre)),
+      ∃ m ∈ preQueue cfg.maxLookahead pre, m.phase = .quality ∧ v = (m.sender, m.value)) ∧
+    (prun order (pinit cfg t input) pre).1.queue = preQueue cfg.maxLookahead pre := by
+  refine ⟨(pvotesQ_begin cfg t input order pre rest now hr).1, (pvotesQ_begin cfg t input order pre rest now hr).2, ?_⟩
+  rw [prun_waiting order cfg t input pre hr]
+
+/-- **The call that broadcasts the round-0 PREPARE** (`prepare0_run`'s localisation): it is the beginning alarm — the
+PREPARE is then broadcast while the queue is drained — or a call that finds the instance in QUALITY; after that call the
+instance has begun and left QUALITY, and the votes counted in the whole run are those counted up to and including it. -/
+theorem prepare0_origin_participant (cfg : Cfg) (t : Table) (input : Chain) (W : Votes) (order : List Pid)
+    (ops : List POp) (hin : input ≠ []) (hT : 0 < t.total) (hvalid : ∀ op ∈ ops, POpP (PMsgOK W t) op)
+    (r : Nat) (v : Chain) (tk : Bool)
+    (hm : Eff.broadcast r .prepare v tk none ∈ (prun order (pinit cfg t input) ops).2) :
+    ∃ ops1 op ops2, ops = ops1 ++ op :: ops2 ∧
+      Eff.broadcast r .prepare v tk none ∈ (pstepWith order (prun order (pinit cfg t input) ops1).1 op).2 ∧
+      ((prun order (pinit cfg t input) ops1).1.started = false ∨
+        (prun order (pinit cfg t input) ops1).1.inst.phase = .quality) ∧
+      (prun order (pinit cfg t input) (ops1 ++ [op])).1.started = true ∧
+      (prun order (pinit cfg t input) (ops1 ++ [op])).1.inst.phase ≠ .quality ∧
+      pvotesQ order (pinit cfg t input) ops = pvotesQ order (pinit cfg t input) (ops1 ++ [op]) :=
+  prepare0_origin_prun cfg t input W order ops hin hT hvalid r v tk hm
+
+/-- … per instance of a multi-instance run: over the QUALITY votes counted by instance `k`, among the calls that concern
+`k` (`opsOf`: the deliveries addressed to `k` while `k` had not finished — queued while `k` was a future instance or the
+current one not yet begun — and the alarms while `k` was current). -/
+theorem prepare0_multi (cfg : Cfg) (c0 : Nat) (ops : List MPOp) (k : Nat) (tbl : Table) (input : Chain)
+    (order : List Pid) (W : Votes) (hfw : forwardOnly (minit cfg c0) ops = true)
+    (hbeg : begunWith cfg c0 k ops = some (tbl, input, order)) (hin : input ≠ []) (hT : 0 < tbl.total)
+    (hvalid : ∀ op ∈ ops, MPOpK k (PMsgOK W tbl) op) (r : Nat) (v : Chain) (tk : Bool)
+    (hm : (k, Eff.broadcast r .prepare v tk none) ∈ (mprun (minit cfg c0) ops).2) :
+    r = 0 ∧ v = (qTally tbl (pvotesQ order (pinit cfg tbl input) (opsOf cfg c0 k ops))).longestPrefixWithQuorum input :=
+  prepare0_mprun cfg c0 ops k tbl input order W hfw hbeg hin hT hvalid r v tk hm
+
+/-- Non-vacuity on `p2Ops`: of the six early messages four are queued (member 2's second QUALITY vote and the round-3
+COMMIT are not); the drain order is 3, 1, 2, 4; the counted votes are those of 3, 1 and 2 — already after the beginning
+alarm (7 calls), during which PREPARE `[7,8]` is broadcast; member 4's vote is tallied (late) but not counted. And on
+`exMOps`: the counted votes of the two instances. -/
+example :
+    ((prun p2Order (pinit r2Cfg r2Tbl [7, 8]) (p2Ops.take 6)).1.queue.map (fun m => (m.sender, m.round, m.phase, m.value)) =
+      [(1, 0, .quality, [7, 8]), (2, 0, .quality, [7, 8]), (3, 0, .quality, [7, 8]), (4, 0, .quality, [7, 9])]) ∧
+    (drainWith p2Order (prun p2Order (pinit r2Cfg r2Tbl [7, 8]) (p2Ops.take 6)).1.queue).map (·.sender) = [3, 1, 2, 4] ∧
+    pvotesQ p2Order (pinit r2Cfg r2Tbl [7, 8]) p2Ops = [(3, [7, 8]), (1, [7, 8]), (2, [7, 8])] ∧
+    pvotesQ p2Order (pinit r2Cfg r2Tbl [7, 8]) (p2Ops.take 7) = [(3, [7, 8]), (1, [7, 8]), (2, [7, 8])] ∧
+    p2Run.1.inst.quality.senders = [3, 1, 2, 4] ∧
+    Eff.broadcast 0 .prepare [7, 8] false none ∈ (prun p2Order (pinit r2Cfg r2Tbl [7, 8]) (p2Ops.take 7)).2 ∧
+    (qTally r2Tbl [(3, [7, 8]), (1, [7, 8]), (2, [7, 8])]).longestPrefixWithQuorum [7, 8] = [7, 8] ∧
+    pvotesQ mxOrder (pinit mxCfg mxTbl [7, 8]) (opsOf mxCfg 0 0 exMOps) = [(2, [7, 8]), (1, [7, 8]), (3, [7, 8])] ∧
+    pvotesQ [1, 4, 2] (pinit mxCfg mxTbl [8, 5]) (opsOf mxCfg 0 1 exMOps) = [(1, [8, 5]), (2, [8, 5]), (3, [8, 5])] :=
+  ⟨p2_quality.1, p2_quality.2.1, p2_quality.2.2.1, p2_quality.2.2.2.1, p2_quality.2.2.2.2.1, p2_quality.2.2.2.2.2.1,
+   p2_quality.2.2.2.2.2.2, mx_quality.1, mx_quality.2⟩
+
+/-! ### completeness of the candidate set, CONVERGE adoption -/
+
+/-- **Completeness of the candidates — participant API**: `candidates_complete` for the instance inside the
+participant, whatever was queued and drained. -/
+theorem candidates_complete_participant (cfg : Cfg) (t : Table) (input : Chain) (W : Votes) (order : List Pid)
+    (ops : List POp) (hin : input ≠ []) (hT : 0 < t.total) (hvalid : ∀ op ∈ ops, POpP (PMsgOK W t) op) :
+    ((prun order (pinit cfg t input) ops).1.inst.phase = .converge ∨
+      (prun order (pinit cfg t input) ops).1.inst.phase = .prepare ∨
+      (prun order (pinit cfg t input) ops).1.inst.phase = .commit →
+      ∀ x, x ≠ [] → x <+: (prun order (pinit cfg t input) ops).1.inst.quality.longestPrefixWithQuorum input →
+        (prun order (pinit cfg t input) ops).1.inst.isCandidate x = true) ∧
+    (∀ r v tk, Eff.broadcast r .prepare v tk none ∈ (prun order (pinit cfg t input) ops).2 →
+      ∀ x, x ≠ [] → x <+: v → (prun order (pinit cfg t input) ops).1.inst.isCandidate x = true) :=
+  candidates_complete_prun cfg t input W order ops hin hT hvalid
+
+/-- … for the running instance of a multi-instance run, while instance `k` is current. -/
+theorem candidates_complete_multi (cfg : Cfg) (c0 : Nat) (ops : List MPOp) (k : Nat) (tbl : Table) (input : Chain)
+    (order : List Pid) (W : Votes) (hfw : forwardOnly (minit cfg c0) ops = true)
+    (hbeg : begunWith cfg c0 k ops = some (tbl, input, order)) (hin : input ≠ []) (hT : 0 < tbl.total)
+    (hvalid : ∀ op ∈ ops, MPOpK k (PMsgOK W tbl) op)
+    (hcur : (mprun (minit cfg c0) ops).1.cur = k) :
+    ∃ p, (mprun (minit cfg c0) ops).1.active = some p ∧
+      (p.inst.phase = .converge ∨ p.inst.phase = .prepare ∨ p.inst.phase = .commit →
+        ∀ x, x ≠ [] → x <+: p.inst.quality.longestPrefixWithQuorum input → p.inst.isCandidate x = true) ∧
+      (∀ r v tk, (k, Eff.broadcast r .prepare v tk none) ∈ (mprun (minit cfg c0) ops).2 →
+        ∀ x, x ≠ [] → x <+: v → p.inst.isCandidate x = true) :=
+  candidates_complete_mprun cfg c0 ops k tbl input order W hfw hbeg hin hT hvalid hcur
+
+/-- **The best ticket is adopted — participant API**: `converge_adopts_best_ticket` at a `ReceiveAlarm` of the
+participant. -/
+theorem converge_adopts_best_ticket_participant (cfg : Cfg) (t : Table) (input : Chain) (W : Votes) (order : List Pid)
+    (ops : List POp) (hin : input ≠ []) (hT : 0 < t.total) (hvalid : ∀ op ∈ ops, POpP (PMsgOK W t) op)
+    (now : Int) (b : ConvVal)
+    (hph : (prun order (pinit cfg t input) ops).1.inst.phase = .converge)
+    (hto : (prun order (pinit cfg t input) ops).1.inst.phaseTimeoutElapsed now = true)
+    (hb : ((prun order (pinit cfg t input) ops).1.inst.getRound
+      (prun order (pinit cfg t input) ops).1.inst.round).converged.findBest (fun _ => true) = some b)
+    (hpre : b.chain <+: (prun order (pinit cfg t input) ops).1.inst.quality.longestPrefixWithQuorum input ∨
+      ∃ r v tk, Eff.broadcast r .prepare v tk none ∈ (prun order (pinit cfg t input) ops).2 ∧ b.chain <+: v) :
+    Eff.broadcast (prun order (pinit cfg t input) ops).1.inst.round .prepare b.chain false (some b.just) ∈
+      (pstepWith order (prun order (pinit cfg t input) ops).1 (.alarm now)).2 :=
+  converge_adopts_best_ticket_prun cfg t input W order ops hin hT hvalid now b hph hto hb hpre
+
+/-- … at a `ReceiveAlarm` of the multi-instance participant while instance `k` is current (the host is not asked for a
+table or a proposal then: `tbl'`, `input'`, `order'` are arbitrary). -/
+theorem converge_adopts_best_ticket_multi (cfg : Cfg) (c0 : Nat) (ops : List MPOp) (k : Nat) (tbl : Table)
+    (input : Chain) (order : List Pid) (W : Votes) (hfw : forwardOnly (minit cfg c0) ops = true)
+    (hbeg : begunWith cfg c0 k ops = some (tbl, input, order)) (hin : input ≠ []) (hT : 0 < tbl.total)
+    (hvalid : ∀ op ∈ ops, MPOpK k (PMsgOK W tbl) op)
+    (hcur : (mprun (minit cfg c0) ops).1.cur = k) (p : PState)
+    (hact : (mprun (minit cfg c0) ops).1.active = some p) (now : Int) (b : ConvVal)
+    (hph : p.inst.phase = .converge) (hto : p.inst.phaseTimeoutElapsed now = true)
+    (hb : (p.inst.getRound p.inst.round).converged.findBest (fun _ => true) = some b)
+    (hpre : b.chain <+: p.inst.quality.longestPrefixWithQuorum input ∨
+      ∃ r v tk, (k, Eff.broadcast r .prepare v tk none) ∈ (mprun (minit cfg c0) ops).2 ∧ b.chain <+: v)
+    (tbl' : Table) (input' : Chain) (order' : List Pid) :
+    Eff.broadcast p.inst.round .prepare b.chain false (some b.just) ∈
+      (mpstep (mprun (minit cfg c0) ops).1 (.alarm now tbl' input' order')).2 :=
+  converge_adopts_best_ticket_mprun cfg c0 ops k tbl input order W hfw hbeg hin hT hvalid hcur p hact now b hph hto hb
+    hpre tbl' input' order'
+
+/-- Non-vacuity on `p2Ops`: after 19 calls (six early deliveries, the beginning alarm, twelve deliveries) the instance
+inside the participant is in CONVERGE of round 1 with the timeout elapsed at 400; the best ticket overall is member 3's
+`[7]`, a proper prefix of the QUALITY proposal `[7,8]`; both prefixes are candidates; the alarm PREPAREs `[7]`. The
+hypotheses hold of that prefix of the run. -/
+example :
+    (let p := (prun p2Order (pinit r2Cfg r2Tbl [7, 8]) (p2Ops.take 19)).1
+     p.inst.phase = .converge ∧ p.inst.round = 1 ∧ p.inst.phaseTimeoutElapsed 400 = true ∧
+     ((p.inst.getRound p.inst.round).converged.findBest (fun _ => true)).map (fun b => (b.chain, b.rank, b.just)) =
+       some ([7], some 1, jB) ∧
+     p.inst.quality.longestPrefixWithQuorum [7, 8] = [7, 8] ∧ p.inst.isCandidate [7] = true ∧
+     p.inst.isCandidate [7, 8] = true ∧
+     Eff.broadcast 1 .prepare [7] false (some jB) ∈ (pstepWith p2Order p (.alarm 400)).2) ∧
+    (∀ op ∈ p2Ops.take 19, POpP (PMsgOK p2W r2Tbl) op) :=
+  ⟨p2_converge, fun op hop => p2_valid op (List.mem_of_mem_take hop)⟩
+
+end RunLevelParticipant
 
 end F3.Props.C07
